@@ -36,7 +36,7 @@ CHECKS = {
              "a second reader idiom, in-place big-endian accumulation with two's-complement correction, is recognised and its "
              "threshold judged exactly); B4 nobody else defines to_bytes; B5 every valid set fits its "
              "width (exhaustive over 102 primitive types). These are necessary conditions of the round trip; byte equality "
-             "on concrete inputs is a value clause and is not decided. B1 also as a guard table: which width / signedness reaches int.to_bytes under which outcome of `<param> is None`. B7 (= C04-V4): NamedRange.by_number(n) is the member with value n. B8 no generator of the decode core is created and discarded (= C01-W12 = C03-R9).",
+             "on concrete inputs is a value clause and is not decided. B1 also as a guard table: which width / signedness reaches int.to_bytes under which outcome of `<param> is None`. B7 (= C04-V4): NamedRange.by_number(n) is the member with value n. B8 no generator of the decode core is created and discarded (= C01-W12 = C03-R9). B9 (= C07-NI-1) strict mode never turns a size error into a warning (an accepted input would then miss the skipped bytes).",
         note="trusted: CPython ast; int.from_bytes/int.to_bytes are mutual inverses for equal (width, order, signedness).",
         technique="reader/writer agreement by def-use comparison + who-defines rule + exhaustive table check",
         design="4/C02",
@@ -55,7 +55,7 @@ CHECKS = {
              "classes; R6 counts are never tested by truthiness; R7 error details and skip amounts as linear forms; R8 outcome "
              "tables of bytes_parsed / assert_done over their path summaries (closed -> obsolete error; armed and counted + size > "
              "limit -> anticipated error / retire, skip the rest, exceeded error; close quiet iff counted == limit); R9 no "
-             "generator of the decode core is created and discarded. Concrete sizes are not computed. R2 judges the effective anticipate_only of the charge site including the callee's default. R10 (= C01-F + C09-S3) the layout chosen for the parameter area follows the right session bit: the encryption flag of the first parameter in its normal form. Region methods that hand the skip to the driver as a request object are a protocol change that is not followed (analysis error, no verdict).",
+             "generator of the decode core is created and discarded. Concrete sizes are not computed. R2 judges the effective anticipate_only of the charge site including the callee's default. R10 (= C01-F + C09-S3) the layout chosen for the parameter area follows the right session bit: the encryption flag of the first parameter in its normal form. Region methods that hand the skip to the driver as a request object are a protocol change that is not followed (analysis error, no verdict). R11 (= C07-NI-1) every handler of a size error re-raises it in strict mode.",
         note="trusted: CPython ast; L (E1). Comparisons on runtime integers are deliberately not pattern-matched.",
         technique="partial evaluation (loop specialisation) + typestate over abstract traces, CFG dominance, who-may-call rules",
         design="4/C03",
@@ -70,7 +70,7 @@ CHECKS = {
              "V4 the membership chain (_INT.is_valid, ValidValues.__contains__/get, NamedRange, enum class membership) has "
              "the membership meaning - decided as decision tables over path summaries, NamedRange as an abstract data type (the "
              "constructor's bindings substituted into the observers' conditions: member exactly for start <= n < end); V5 valid-value and naming facets of all 719 pinned types (exhaustive); V6 unknown "
-             "command code -> ValueConstraintViolatedError with ValidValues(TPM_CC). The iff over concrete values is not decided. V6 also checks the declared type named by the unknown-command-code error. V7 (= C15-F1) every front-end hands the caller's options and the decoder's default mode on. V1's raise-after-event is judged per feasible path.",
+             "command code -> ValueConstraintViolatedError with ValidValues(TPM_CC). The iff over concrete values is not decided. V6 also checks the declared type named by the unknown-command-code error. V7 (= C15-F1) every front-end hands the caller's options and the decoder's default mode on. V1's raise-after-event is judged per feasible path. V8 (= C01-W0) the decode facets of the snapshot: which allowed set a field is checked against is decided by its declared type.",
         note="trusted: CPython ast; E1 model (guards G1-G7); 'first offending field' relies on C01-W4 ordering.",
         technique="CFG dominance + def-use + who-may-call rule + pinned valid-value tables",
         design="4/C04",
@@ -84,7 +84,7 @@ CHECKS = {
              "errors carry the running command code, assigned only from the <root>.commandCode event. E3: the silent "
              "end-of-input return is control dependent on the stream type, the depleted flag and a root event; the error "
              "classes store exactly the surplus bytes / command code they are given (path summaries of their constructors). Decides the "
-             "shape of the pump on all paths, not which events precede the error for a concrete truncation point. Also: the running command code is captured; boundary test polarity; handler exits of the pump (a finished processor is never resumed, constraint errors are re-raised on every path). E1 also: every superfluous error is given the surplus bytes; E3 accepts the boundary test by event type for exactly {Command, Response}.",
+             "shape of the pump on all paths, not which events precede the error for a concrete truncation point. Also: the running command code is captured; boundary test polarity; handler exits of the pump (a finished processor is never resumed, constraint errors are re-raised on every path). E1 also: every superfluous error is given the surplus bytes; E3 accepts the boundary test by event type for exactly {Command, Response}. E4 (= C01-W0) the decode facets of the snapshot (a table entry that is too small absorbs a truncation).",
         note="trusted: CPython ast; generator send/StopIteration semantics; processor protocol (C10-T1). The events emitted "
              "before the error (value clause) are not decided.",
         technique="CFG + typestate abstract interpretation (path-sensitive on depleted flag / look-ahead byte), def-use, control dependence",
@@ -100,7 +100,7 @@ CHECKS = {
              "(C20 T1-T5, W1), the specialised traces (C03-R1, C01-F), the pump typestate (C10-T1) or call-site shapes; an "
              "undischarged site is reported with its input dependence; encrypted() is folded over all parameter areas of L and "
              "must not raise on any; X3 every resolvable call in the decode core matches its callee's signature. X2 termination: acyclic type graph, messages and "
-             "byte-sized list elements consume >= 1 byte, only bounded data-driven loop forms, one pull per pump iteration. X5: no read of a local that no assignment reaches, no name bound nowhere (symtable), in the decode core; one handler proven unreachable for command codes in TPM_CC is not judged (DESIGN 4, round-6 note). X6 (= C19-L4) the type search decodes a Response only with members of TPM_CC (what the exemption of the unknown-command-code handler rests on).",
+             "byte-sized list elements consume >= 1 byte, only bounded data-driven loop forms, one pull per pump iteration. X5: no read of a local that no assignment reaches, no name bound nowhere (symtable), in the decode core; one handler proven unreachable for command codes in TPM_CC is not judged (DESIGN 4, round-6 note). X6 (= C19-L4) the type search decodes a Response only with members of TPM_CC (what the exemption of the unknown-command-code handler rests on). X7 every member of every layout class has a type the decoder can walk (a non-type annotation is kept by the model as such and reported).",
         note="trusted: CPython ast; L (E1). Implicit failures outside the closed idiom list (e.g. a TypeError from an operator on "
              "an unexpected object) are not excluded - no untyped-Python static analysis can. Open finding K2 is listed in "
              "known_findings.json. Assumes the command_code argument is a TPM_CC member.",
@@ -145,7 +145,7 @@ CHECKS = {
              "being TPMA_SESSION masks in L; S4 command then response at the stream's root path, mode threaded, no own "
              "termination; S5 separate_events cuts exactly at root-path MarshalEvents and events_to_objs alternates and carries "
              "the command code into exactly the next message (decision lists on the path summaries of one loop iteration); S6 = "
-             "C05-E3: a stream ends silently only at a message boundary. Equality of concatenated event lists is not decided. S6 also requires that the silent end-of-stream return exists. S5 also recognises the index-slicing form of separate_events (starts at root events, last slice to the end). S2/S3 judge the encryption request in a normal form (tpmsa.encreq): whatever functions, methods or keyword bundles compute it are evaluated symbolically to (value without session area, value when a session sets the bit, value when none does) for one area and one bit; required (None, True, None) on the command's own area with `encrypt`.",
+             "C05-E3: a stream ends silently only at a message boundary. Equality of concatenated event lists is not decided. S6 also requires that the silent end-of-stream return exists. S5 also recognises the index-slicing form of separate_events (starts at root events, last slice to the end). S2/S3 judge the encryption request in a normal form (tpmsa.encreq): whatever functions, methods or keyword bundles compute it are evaluated symbolically to (value without session area, value when a session sets the bit, value when none does) for one area and one bit; required (None, True, None) on the command's own area with `encrypt`. S7 (= C07-NI-2) the mode flag is handed down on every call from the pump to the message walkers.",
         note="trusted: CPython ast; C01-W5 (child paths extend the parent) for the unambiguity of the cut.",
         technique="def-use on abstract traces (partial evaluation) + shape rules on the pairing helpers",
         design="4/C09",
@@ -158,7 +158,7 @@ CHECKS = {
              "with no byte request in between. T2: the buffer parameters of the pump and of the three lazy front-end "
              "scanners are used only through iter()/next() (except inside raise). T3: the processor never receives the "
              "buffer or iterator. T6: a scanner starts one traversal of its raw source only (bytes / lists restart). T5 (= C05-E3): the empty prefix of a non-stream decode reports depletion like every other "
-             "prefix. This is the structural core of the property; concrete pull counts are its dynamic view. T6 also: next() only on an iterator made from the source (never on the raw parameter). T7 (= C15-F11): a character obtained with next(it, default) reaches int(..., 16) only where the default was excluded. T2 also covers the front-end functions (hex / swtpm / auto marshal): no pre-read or materialisation of the caller's source. T8 no closure made in a loop over the sources reads its loop variable late (every reader would read the last source).",
+             "prefix. This is the structural core of the property; concrete pull counts are its dynamic view. T6 also: next() only on an iterator made from the source (never on the raw parameter). T7 (= C15-F11): a character obtained with next(it, default) reaches int(..., 16) only where the default was excluded. T2 also covers the front-end functions (hex / swtpm / auto marshal): no pre-read or materialisation of the caller's source. T8 no closure made in a loop over the sources reads its loop variable late (every reader would read the last source). T9 (= C19-L12) the file reader hands out every file to its end; T10 (= C03-R4) a decode starts from its own region list.",
         note="trusted: CPython ast; Python iterator/generator protocol. pcapng.marshal materialises its input by design (documented in the code) and is outside T2.",
         technique="CFG + typestate abstract interpretation of the pump, who-may-use rules on iterator/buffer variables",
         design="4/C10",
@@ -195,7 +195,7 @@ CHECKS = {
         text="At each site of the pump that attaches remaining bytes to a ConstraintViolatedError, the attached expression "
              "is resolved (def-use, path-sensitive on the depleted flag) in every abstract state reaching it and must be "
              "exactly 'look-ahead byte iff FRESH, then the iterator'; every re-raise attaches to the same error first; "
-             "the overrun error is raised only after consume_bytes(size_max - size_already), in both modes. A3 also: no input is consumed on any path to an anticipated overrun error.",
+             "the overrun error is raised only after consume_bytes(size_max - size_already), in both modes. A3 also: no input is consumed on any path to an anticipated overrun error. A5 (= C07-NI-1) a caught constraint error is re-raised in strict mode, not wrapped.",
         note="trusted: CPython ast; itertools.chain/bytes semantics. The byte equation on concrete inputs is not decided.",
         technique="typestate abstract interpretation + path-sensitive reaching definitions at the attach sites",
         design="4/C13",
@@ -278,7 +278,7 @@ CHECKS = {
              "bytes and warn mode to the selected front-end and prints every item the selected printer yields (hex for bytes) "
              "with no cut in the loop; L4 the type search decodes strictly and catches exactly the documented error classes; "
              "L5 example output is under the command-code filter / exact-type selection and rendered from one event list. The "
-             "statement's observable (stdout / exit status of a process) is not decided. L2 the suggestion lookup cannot fail; L7 an eager Canonical has decoded inside its constructor with the arguments it was given, `type` lists the decoded type name (responses with their command code); L6 no unbound local / undefined name. L8 cc_name folded over all command codes gives the member's name; L7 also checks the plumbing of the type listing. L9 (= C15-F2) every front-end returns the decoder's result; L4 folds the tests on the candidate type over the layout's type listing (stream type and unions skipped, Response with every command code). L11 (= C11-A1) the members a message may lack are exactly those the object-to-events conversion leaves out; L4 follows candidate generators and command-code name tables; L7 accepts any whole-content read of args.file through a reader of tpmstream.io.",
+             "statement's observable (stdout / exit status of a process) is not decided. L2 the suggestion lookup cannot fail; L7 an eager Canonical has decoded inside its constructor with the arguments it was given, `type` lists the decoded type name (responses with their command code); L6 no unbound local / undefined name. L8 cc_name folded over all command codes gives the member's name; L7 also checks the plumbing of the type listing. L9 (= C15-F2) every front-end returns the decoder's result; L4 folds the tests on the candidate type over the layout's type listing (stream type and unions skipped, Response with every command code). L11 (= C11-A1) the members a message may lack are exactly those the object-to-events conversion leaves out; L4 follows candidate generators and command-code name tables; L7 accepts any whole-content read of args.file through a reader of tpmstream.io. L12 the file reader of tpmstream.io has no return inside and no break out of its loop over the files.",
         note="weakest claim: shape of __main__.py only; trusted: argparse semantics.",
         technique="table agreement + decision lists over path summaries of the CLI functions",
         design="4/C19",
